@@ -116,7 +116,7 @@ func c03Ops(maxL int) []listOp {
 
 type c03Cfg struct {
 	listCfg
-	Ctor   string // "", "0", "-1": constructor argument for the no-capacity family
+	Ctor   string // "", "0", "-1": constructor argument for the no-capacity family; "marshal", "marshal-nested": made by Marshal
 	Policy bool   // an accept-everything push policy is installed (Push then takes the policy path)
 	NoNest bool   // the no-nesting option is set; batches then also offer Stack values
 }
@@ -149,6 +149,18 @@ func c03Machine(c *Ctx, cfg c03Cfg) *Machine[*listInst] {
 				arg = -1
 			}
 			in := &listInst{s: newStackKind(cfg.Kind, arg), m: &listModel{}}
+			switch cfg.Ctor {
+			case "marshal": // brought to life by Marshal on a zero value: no capacity was ever asked for
+				var z stackage.Stack
+				z.Marshal(cfg.Kind, "m0")
+				in = &listInst{s: z, m: &listModel{items: []any{"m0"}}}
+			case "marshal-nested": // a nested stack rebuilt by the default marshaler
+				var z stackage.Stack
+				z.Marshal("LIST", []any{cfg.Kind, "m0"}, "tail")
+				v, _ := z.Index(0)
+				n, _ := v.(stackage.Stack)
+				in = &listInst{s: n, m: &listModel{items: []any{"m0"}}}
+			}
 			if cfg.FIFO {
 				in.s.SetFIFO(true)
 				in.m.fifo = true
@@ -190,7 +202,8 @@ func c03Machine(c *Ctx, cfg c03Cfg) *Machine[*listInst] {
 			c.Outcome(fmt.Sprintf("%d/%d", len(in.m.items), in.m.capk))
 			return out
 		},
-		Key: func(in *listInst) string { return stackKey(in.s) },
+		Observe: func(in *listInst) { observeAll(in.s) },
+		Key:     func(in *listInst) string { return stackKey(in.s) },
 	}
 }
 
@@ -212,7 +225,7 @@ func c03Configs(c *Ctx) []c03Cfg {
 					out = append(out, c03Cfg{listCfg{k, fifo, cp, false, false, cp, false, false, false}, "", false, true})
 				}
 			}
-			for _, ctor := range []string{"", "0", "-1"} {
+			for _, ctor := range []string{"", "0", "-1", "marshal", "marshal-nested"} {
 				out = append(out, c03Cfg{listCfg{k, fifo, 0, false, false, 3, false, false, false}, ctor, false, false})
 			}
 		}
@@ -227,7 +240,7 @@ func init() {
 		for _, cfg := range append(c03Configs(&Ctx{Tier: "quick"}), c03Configs(&Ctx{Tier: "thorough"})...) {
 			m := c03Machine(c, cfg)
 			if m.Name == hc.Machine {
-				replayHistory(c, m, hc.History)
+				replayHistory(c, m, hc.History, hc.Observed)
 				return
 			}
 		}
